@@ -163,6 +163,11 @@ def run(ck):
         opsets = opsets[::3]
     for ops in opsets:
         lifejobs.append({"id": len(lifejobs), "ops": ops})
+    # stops overlapping starts, then a sequential use of the cache: counts as a "start" for the model and the oracle below
+    MIX = "start-after-mixed-concurrent"
+    for ops in ([MIX], ["start", MIX], ["stop", MIX], [MIX, "stop"], [MIX, MIX], [MIX, "stop", "start"], ["start-concurrent", MIX], [MIX, "stop-concurrent"]):
+        for _ in range(2 if ck.quick else 8):
+            lifejobs.append({"id": len(lifejobs), "ops": ops, "rounds": 1500 if ck.quick else 10000})
     lres, ldead = common.run_jobs(hb, "cleaner-life", lifejobs, procs=8)
     for j in lifejobs:
         r = lres.get(j["id"])
